@@ -491,7 +491,7 @@ def _list_method(interp, lst, name):
             if name == 'pop' and a and isinstance(a[0], Sym):
                 a = (interp.concrete_index(a[0]),)
             try:
-                return _b.getattr(list, name)(lst, *a, **k)
+                return getattr(list, name)(lst, *a, **k)
             except IndexError as e:
                 _raise('IndexError', str(e))
         return mut
@@ -517,7 +517,7 @@ def _dict_method(interp, d, name):
             if name == 'update' and a and hasattr(a[0], 'sym_to_dict'):
                 a = (a[0].sym_to_dict(interp),)
             try:
-                return _b.getattr(dict, name)(d, *a, **k)
+                return getattr(dict, name)(d, *a, **k)
             except KeyError as e:
                 _raise('KeyError', *e.args)
         return mut
@@ -539,14 +539,14 @@ def _set_method(interp, s, name):
         def mut(*a, **k):
             interp._note_mutation(s)
             try:
-                return _b.getattr(set, name)(s, *a, **k)
+                return getattr(set, name)(s, *a, **k)
             except KeyError as e:
                 _raise('KeyError', *e.args)
         return mut
     return NotImplemented
 
 
-def getattr(interp, obj, name):
+def lib_getattr(interp, obj, name):
     if isinstance(obj, list):
         return _list_method(interp, obj, name)
     if isinstance(obj, dict):
@@ -571,11 +571,11 @@ def getattr(interp, obj, name):
     if isinstance(obj, GenList) and name == 'tolist':
         return lambda: obj
     if isinstance(obj, enum.Enum) or isinstance(obj, enum.EnumMeta):
-        return _b.getattr(obj, name)
+        return getattr(obj, name)
     if isinstance(obj, CallableType):
-        return _b.getattr(obj.pytype, name)
+        return getattr(obj.pytype, name)
     if isinstance(obj, str):
-        return _b.getattr(obj, name)
+        return getattr(obj, name)
     return NotImplemented
 
 
@@ -596,7 +596,7 @@ F64_EPS = Fraction(1, 2 ** 52)
 F64_MAX = Fraction((2 ** 53 - 1) * 2 ** (1023 - 52))
 F64_MIN = Fraction(1, 2 ** 1022)
 
-NDARRAY = TypeToken('np.ndarray', lambda x: isinstance(x, (Lane, Arr2)) or _b.getattr(x, 'is_ndarray', False))
+NDARRAY = TypeToken('np.ndarray', lambda x: isinstance(x, (Lane, Arr2)) or getattr(x, 'is_ndarray', False))
 NP_FLOAT32 = TypeToken('np.float32', lambda x: False)
 NP_FLOATING = TypeToken('np.floating', lambda x: isinstance(x, Sym) and x.t.sort == 'R')
 NP_INTEGER = TypeToken('np.integer', lambda x: isinstance(x, Sym) and x.t.sort == 'I')
@@ -619,6 +619,10 @@ def _num(x):
         return Sym(ir.const(x))
     if isinstance(x, GenList):
         return x.lane
+    if isinstance(x, list) and len(x) == 1 and isinstance(x[0], GenList):
+        return x[0].lane                     # [[...]]: a (1, n) nested list; reductions flatten it
+    if type(x).__name__ == 'RowsArr' and len(x.rows) == 1:
+        return x.rows[0]
     return x
 
 
@@ -840,6 +844,9 @@ def np_full(shape, val, dtype=None):
             return Arr2([Lane(to_term(val), shape[0]) for _ in range(shape[1])], shape[0])
         else:
             raise Unsupported('np.full shape %r' % (shape,))
+    if isinstance(n, Sym) and n.t in values.COUNT_OF:
+        mask, n0 = values.COUNT_OF[n.t]
+        return Lane(to_term(val) if not isinstance(val, Lane) else val.t, n0, mask)
     return Lane(to_term(val) if not isinstance(val, Lane) else val.t, n)
 
 
@@ -1750,11 +1757,11 @@ class _PdType(TypeToken):
 
 
 def _is_frame(x):
-    return _b.getattr(x, 'is_frame', False)
+    return getattr(x, 'is_frame', False)
 
 
 def _is_series(x):
-    return _b.getattr(x, 'is_series', False) or isinstance(x, SeriesVec)
+    return getattr(x, 'is_series', False) or isinstance(x, SeriesVec)
 
 
 PANDAS = Stub('pandas', {
@@ -1762,3 +1769,371 @@ PANDAS = Stub('pandas', {
     'DataFrame': _PdType('pd.DataFrame', _is_frame, _pd_dataframe),
 })
 EXTERNAL['pandas'] = PANDAS
+
+
+# ------------------------------------------------------------------------------------------------
+# scipy.stats distributions, gaussian_kde, kstest, special.ndtr
+# ------------------------------------------------------------------------------------------------
+
+DIST_SHAPES = {'norm': [], 'beta': ['a', 'b'], 'gamma': ['a'], 't': ['df'], 'loglaplace': ['c'],
+               'truncnorm': ['a', 'b'], 'uniform': []}
+
+
+def _map_lane(x, f):
+    """apply an elementwise term function to a scalar / Lane / Arr2 column-wise"""
+    x = _num(x)
+    if isinstance(x, Lane):
+        return Lane(f(x.t), x.n, x.mask)
+    if isinstance(x, Sym):
+        return Sym(f(x.t))
+    if isinstance(x, Arr2):
+        return Arr2([Lane(f(c.t), c.n, c.mask) for c in x.cols], x.n)
+    if hasattr(x, 'sym_map'):
+        return x.sym_map(f)
+    raise Unsupported('elementwise scipy function on %r' % (x,))
+
+
+class Dist(object):
+    """scipy.stats.<name> (rv_continuous): ASSUMED CONTRACT. pdf/cdf/ppf/logpdf(X, **params) require keyword names
+    among the distribution's shape names + loc + scale (TypeError otherwise) and are elementwise, deterministic
+    functions of (x, params); cdf in [0,1] and non-decreasing, ppf its generalised inverse, pdf >= 0,
+    logpdf = log(pdf); rvs(size, **params) draws `size` values consuming ONLY the global numpy generator;
+    fit(X, ...) returns (shapes..., loc, scale) in that order, a deterministic function of X and its arguments."""
+    def __init__(self, name):
+        self.name = name
+
+    def _params(self, kw):
+        allowed = DIST_SHAPES[self.name] + ['loc', 'scale']
+        for k in kw:
+            if k not in allowed:
+                _raise('TypeError', "%s got an unexpected keyword argument '%s'" % (self.name, k))
+        missing = [k for k in DIST_SHAPES[self.name] if k not in kw]
+        if missing:
+            _raise('TypeError', '%s missing required shape parameters %s' % (self.name, missing))
+        out = [to_term(kw[k]) for k in DIST_SHAPES[self.name]]
+        out.append(to_term(kw.get('loc', 0)))
+        out.append(to_term(kw.get('scale', 1)))
+        return out
+
+    def _elem(self, what, x, kw, positional=()):
+        USED['scipy.stats.' + self.name] = Dist.__doc__
+        if positional:
+            names = DIST_SHAPES[self.name] + ['loc', 'scale']
+            kw = dict(kw)
+            for nm, v in zip(names, positional):
+                kw[nm] = v
+        ps = self._params(kw)
+        if self.name == 'norm' and what in ('cdf', 'ppf'):
+            loc, scale = ps
+            if what == 'cdf':
+                return _map_lane(x, lambda t: ir.ndtr(ir.div(ir.sub(t, loc), scale)))
+            return _map_lane(x, lambda t: ir.add(loc, ir.mul(scale, ir.ndtri(t))))
+        if what == 'logpdf':
+            return _map_lane(x, lambda t: ir.log(ir.uf('pdf.' + self.name, [t] + ps)))
+        r = _map_lane(x, lambda t: ir.uf('%s.%s' % (what, self.name), [t] + ps))
+        c = State.ctx
+        for lane in (r.cols if isinstance(r, Arr2) else [r]):
+            t = lane.t
+            if what == 'cdf':
+                c.assume(ir.and_(ir.ge(t, 0), ir.le(t, 1)))
+            elif what == 'pdf':
+                c.assume(ir.ge(t, 0))
+        return r
+
+    def sym_getattr(self, interp, name):
+        if name in ('pdf', 'cdf', 'ppf', 'logpdf', 'sf'):
+            return lambda x, *a, **kw: self._elem(name, x, kw, a)
+        if name == 'rvs':
+            def rvs(*a, size=None, random_state=None, **kw):
+                USED['scipy.stats.' + self.name] = Dist.__doc__
+                names = DIST_SHAPES[self.name] + ['loc', 'scale']
+                kw = dict(kw)
+                for nm, v in zip(names, a):
+                    kw[nm] = v
+                ps = self._params(kw)
+                if random_state is not None:
+                    State.ctx.event('rng_foreign', 'rvs(random_state=...)', State.where)
+                    raise Unsupported('rvs with an explicit random_state')
+                n = size if size is not None else 1
+                g = RNG.advance('rvs.' + self.name, [n])
+                t = ir.uf('rvs.%s.elem' % self.name, [g] + ps + [to_term(n), values.IDX])
+                return Lane(t, n) if size is not None else Sym(t)
+            return rvs
+        if name == 'fit':
+            def fit(X, *a, **kw):
+                USED['scipy.stats.' + self.name] = Dist.__doc__
+                w = _whole(X)
+                extra = [to_term(v) for v in a] + [t for k in sorted(kw) for t in (ir.const(k), to_term(kw[k]))]
+                k = len(DIST_SHAPES[self.name]) + 2
+                names = DIST_SHAPES[self.name] + ['loc', 'scale']
+                State.ctx.event('libcall', ('fit.' + self.name, [w] + extra), State.where)
+                return tuple(Sym(ir.uf('fit.%s.%s' % (self.name, names[j]), [w] + extra)) for j in range(k))
+            return fit
+        if name == 'nnlf':
+            def nnlf(theta, X):
+                return Sym(ir.uf('nnlf.' + self.name, [to_term(v) for v in theta] + [_whole(X)]))
+            return nnlf
+        if name == 'logpdf_attr':
+            return True
+        raise Unsupported('scipy.stats.%s.%s' % (self.name, name))
+
+
+for _d in DIST_SHAPES:
+    SCIPY_STATS._table[_d] = Dist(_d)
+
+
+@model('scipy.stats.kstest', 'kstest(X, cdf): [0] is the Kolmogorov-Smirnov distance sup|F_n - cdf| >= 0, a deterministic '
+       'function of the data and of the callable; [1] the p-value; the callable is evaluated on the data (it may raise)')
+def st_kstest(X, cdf, *a, **kw):
+    I = _I()
+    vals = I.call(cdf, [_num(X) if not hasattr(X, 'sym_to_numpy') else X.sym_to_numpy(I)], {})
+    wv = _whole(vals)
+    ks = ir.uf('kstest', [_whole(X), wv])
+    State.ctx.assume(ir.ge(ks, 0))
+    return TupleLike([Sym(ks), Sym(ir.uf('kstest.p', [_whole(X), wv]))], statistic=Sym(ks))
+
+
+SCIPY_STATS._table['kstest'] = st_kstest
+
+
+class KdeObj(object):
+    """scipy.stats.gaussian_kde instance: ASSUMED CONTRACT. gaussian_kde(dataset, bw_method, weights): .dataset is
+    the (1, n) data, .weights >= 0 summing to 1, .covariance[0,0] = factor(bw_method, n)^2 * weighted variance > 0,
+    .evaluate(x) = sum_j w_j * phi((x - x_j)/s)/s with s = sqrt(covariance[0,0]); .logpdf(x) = log(evaluate(x));
+    .resample(size) returns a (1, size) array and consumes only the global numpy generator."""
+    JDX = ir.var('@j', 'I')
+
+    def __init__(self, dataset, bw_method, weights):
+        self.ds = dataset             # Lane-like (generic element over @i) or whole term
+        self.bw, self.weights = bw_method, weights
+        w = _whole(dataset)
+        self.w = w
+        self.key = [w, to_term(bw_method) if isinstance(bw_method, (Sym, int, float, str)) or bw_method is None
+                    else ir.const(str(bw_method)),
+                    _whole(weights) if weights is not None else ir.const(None)]
+        self.cov = ir.uf('kde.cov', self.key)
+        State.ctx.assume(ir.gt(self.cov, 0))
+
+    def _j(self, t):
+        """the dataset / weights seen at the summation index @j"""
+        m = {}
+        for v in ir.free_vars(t):
+            if v.args[0].endswith('@i'):
+                m[v] = ir.var(v.args[0][:-2] + '@j', v.sort)
+            elif v is values.IDX:
+                m[v] = KdeObj.JDX
+        return ir.substitute(t, m)
+
+    def sym_getattr(self, interp, name):
+        USED['scipy.stats.gaussian_kde'] = KdeObj.__doc__
+        if name == 'dataset':
+            return KdeData(self)
+        if name == 'covariance':
+            return ConcArr([[Sym(self.cov)]])
+        if name == 'weights':
+            return KdeWeights(self)
+        if name == 'factor':
+            return Sym(ir.uf('kde.factor', self.key))
+        if name in ('evaluate', 'pdf', '__call__'):
+            return lambda X: _map_lane(X, lambda t: ir.uf('kde.evaluate', [t] + self.key))
+        if name == 'logpdf':
+            return lambda X: _map_lane(X, lambda t: ir.log(ir.uf('kde.evaluate', [t] + self.key)))
+        if name == 'resample':
+            def resample(size=None, seed=None):
+                if seed is not None:
+                    State.ctx.event('rng_foreign', 'resample(seed=...)', State.where)
+                    raise Unsupported('gaussian_kde.resample with a seed')
+                n = size if size is not None else Sym(ir.uf('kde.neff', self.key, 'I'))
+                g = RNG.advance('kde.resample', [n])
+                lane = Lane(ir.uf('kde.resample.elem', [g] + self.key + [to_term(n), values.IDX]), n)
+                return RowsArr([lane])
+            return resample
+        raise Unsupported('gaussian_kde.' + name)
+
+    def sym_call(self, interp, args, kwargs):
+        return self.sym_getattr(interp, 'evaluate')(*args)
+
+
+class KdeData(object):
+    """model.dataset : shape (1, n), element x_j at the summation index"""
+    is_ndarray = True
+
+    def __init__(self, kde):
+        self.kde = kde
+
+    def elem_j(self):
+        d = self.kde.ds
+        if isinstance(d, Lane):
+            return self.kde._j(d.t)
+        return ir.uf('kde.data', [self.kde.w, KdeObj.JDX])
+
+    def sym_binop(self, interp, op, other, reflected):
+        # x[:, None] - dataset  ->  two-index element term
+        if isinstance(other, Arr2) and len(other.cols) == 1 and op in ('Sub', 'Add'):
+            x = other.cols[0]
+            d = self.elem_j()
+            t = (ir.sub(d, x.t) if not reflected else ir.sub(x.t, d)) if op == 'Sub' else ir.add(x.t, d)
+            r = Lane2(t, x.n, self.kde)
+            r.mask = x.mask
+            return r
+        if isinstance(other, (Sym, int, float)) and op in ('Sub', 'Add'):
+            d = self.elem_j()
+            o = to_term(other)
+            t = (ir.sub(d, o) if not reflected else ir.sub(o, d)) if op == 'Sub' else ir.add(o, d)
+            return LaneJ(t, self.kde)
+        return NotImplemented
+
+
+class KdeWeights(object):
+    is_ndarray = True
+
+    def __init__(self, kde):
+        self.kde = kde
+
+    def elem_j(self):
+        w = self.kde.weights
+        if isinstance(w, Lane):
+            return self.kde._j(w.t)
+        return ir.uf('kde.weight', self.kde.key + [KdeObj.JDX])
+
+
+class LaneJ(object):
+    """(1, n) array over the dataset index @j"""
+    is_ndarray = True
+
+    def __init__(self, t, kde):
+        self.t, self.kde = t, kde
+
+    def sym_binop(self, interp, op, other, reflected):
+        if isinstance(other, (Sym, int, float)):
+            f = {'Sub': ir.sub, 'Add': ir.add, 'Mult': ir.mul, 'Div': ir.div}.get(op)
+            if f is None:
+                return NotImplemented
+            o = to_term(other)
+            return LaneJ(f(o, self.t) if reflected else f(self.t, o), self.kde)
+        return NotImplemented
+
+    def sym_map(self, f):
+        return LaneJ(f(self.t), self.kde)
+
+    def sym_getitem(self, interp, key):
+        if key == 0:
+            return LaneJ1(self.t, self.kde)
+        raise Unsupported('LaneJ index')
+
+
+class LaneJ1(LaneJ):
+    """1-d array over @j (row 0 of a (1, n) array)"""
+
+
+class Lane2(object):
+    """(m, n) array with element term over (@i evaluation point, @j dataset point)"""
+    is_ndarray = True
+
+    def __init__(self, t, n, kde):
+        self.t, self.n, self.kde = t, n, kde
+
+    def sym_binop(self, interp, op, other, reflected):
+        f = {'Sub': ir.sub, 'Add': ir.add, 'Mult': ir.mul, 'Div': ir.div}.get(op)
+        if f is None:
+            return NotImplemented
+        if isinstance(other, (Sym, int, float)):
+            o = to_term(other)
+        elif isinstance(other, (LaneJ,)):
+            o = other.t
+        elif isinstance(other, Lane2):
+            o = other.t
+        else:
+            return NotImplemented
+        r = Lane2(f(o, self.t) if reflected else f(self.t, o), self.n, self.kde)
+        r.mask = getattr(self, 'mask', None)
+        return r
+
+    def sym_map(self, f):
+        r = Lane2(f(self.t), self.n, self.kde)
+        r.mask = getattr(self, 'mask', None)
+        return r
+
+    def sym_getattr(self, interp, name):
+        if name == 'dot':
+            def dot(w):
+                if isinstance(w, KdeWeights):
+                    wt = w.elem_j()
+                elif isinstance(w, (LaneJ,)):
+                    wt = w.t
+                else:
+                    raise Unsupported('dot with %r' % (w,))
+                summand = ir.mul(self.t, wt)
+                if summand is ir.ZERO:
+                    return Lane(ir.ZERO, self.n, getattr(self, 'mask', None))               # a sum of zeros
+                return Lane(ir.uf('sum@j', [summand, self.kde.w]), self.n, getattr(self, 'mask', None))
+            return dot
+        raise Unsupported('Lane2.' + name)
+
+
+class _GaussianKde(TypeToken):
+    def sym_call(self, interp, args, kwargs):
+        ds = args[0]
+        if isinstance(ds, GenList):
+            ds = ds.lane
+        if isinstance(ds, RowsArr) and len(ds.rows) == 1:
+            ds = ds.rows[0]
+        from .interp import PyList
+        if isinstance(ds, PyList) and len(ds) == 1 and isinstance(ds[0], GenList):
+            ds = ds[0].lane
+        return KdeObj(ds, kwargs.get('bw_method', args[1] if len(args) > 1 else None),
+                      kwargs.get('weights', args[2] if len(args) > 2 else None))
+
+    def sym_getattr(self, interp, name):
+        if name == 'logpdf':
+            # an unbound instance method: calling it on the class needs the instance as first argument
+            def logpdf(*a, **kw):
+                if kw:
+                    _raise('TypeError', "gaussian_kde.logpdf() got an unexpected keyword argument '%s'" % sorted(kw)[0])
+                raise Unsupported('gaussian_kde.logpdf called on the class')
+            return logpdf
+        if name in ('pdf', 'cdf', 'ppf', 'rvs'):
+            _raise('AttributeError', "type object 'gaussian_kde' has no attribute '%s'" % name)
+        raise Unsupported('gaussian_kde.' + name)
+
+
+SCIPY_STATS._table['gaussian_kde'] = _GaussianKde('gaussian_kde', lambda x: isinstance(x, KdeObj))
+
+
+@model('scipy.special.ndtr', 'ndtr is the standard normal CDF Phi (elementwise): strictly increasing, range (0,1), '
+       'Phi(-x) = 1 - Phi(x)')
+def sp_ndtr(x):
+    return _map_lane(x, ir.ndtr)
+
+
+EXTERNAL['scipy.special'] = Stub('scipy.special', {'ndtr': sp_ndtr})
+EXTERNAL['scipy']._table['special'] = EXTERNAL['scipy.special']
+
+
+@model('scipy.optimize.fmin_slsqp', 'fmin_slsqp(f, x0, bounds=[(l1,u1),(l2,u2)], ...): returns a point inside the bounds, '
+       'a deterministic function of (f, x0, bounds); optimality is NOT assumed')
+def sp_fmin_slsqp(f, x0, iprint=None, bounds=None, **kw):
+    c = State.ctx
+    x0t = [to_term(v) for v in x0]
+    bt = [t for (lo, hi) in (bounds or []) for t in (to_term(lo), to_term(hi))]
+    probe = [Sym(c.fresh('slsqp_probe')) for _ in x0]
+    saved = State.safety
+    State.safety = False
+    try:
+        fval = _I().call(f, [tuple(probe)], {})
+    finally:
+        State.safety = saved
+    key = [to_term(fval)] + [p.t for p in probe] + x0t + bt
+    out = []
+    for j in range(len(x0)):
+        x = ir.uf('slsqp.x%d' % j, x0t + bt + [ir.uf('objective', [to_term(fval)] + [p.t for p in probe], 'U')])
+        if bounds:
+            lo, hi = bounds[j]
+            c.assume(ir.and_(ir.le(to_term(lo), x), ir.le(x, to_term(hi))))
+        out.append(Sym(x))
+    c.event('libcall', ('fmin_slsqp', x0t + bt), State.where)
+    c.event('fmin_slsqp', {'objective': to_term(fval), 'probe': [p.t for p in probe], 'x0': x0t, 'bounds': bt}, State.where)
+    return tuple(out)
+
+
+SCIPY_OPTIMIZE._table['fmin_slsqp'] = sp_fmin_slsqp
